@@ -293,6 +293,32 @@ def ambiguity(ctx, cfg, fs):
     ok = len(rs_) == 1 and rs_[0].dest == [0, []]
     ctx.ob('A.ambiguity', 'run_inner:delegates', ok, 'run_inner returns the outcome of run_subparser unchanged: %s' % ok, where=b.where(), cfg=cfg)
     cons = [c for c in b.calls() if c.is_(r'State::construct$')]
+    # whether this run is a completion request is known only once the tokenizer has seen the items (the shell stubs pass the
+    # revision marker AS an item): the test that lets the ambiguity error through reads the state construct() returned
+    rd = [c for c in b.calls() if c.is_(r'^error::Message::render$')]
+    src = set(); late = True
+    if rd and cons:
+        for (a_, s_) in b.transitive_control_deps(rd[0].bb):
+            sw_ = Switch(b, a_)
+            if sw_.kind != 'bool':
+                continue
+            def walk(rs, depth=0):
+                for r in rs:
+                    if r.kind == 'call' and r.call.is_(r'Option::<.*>::is_(some|none)$', r'as std::ops::Not>::not$') and depth < 4:
+                        walk(provenance(b, r.call.args[0], r.call.bb, 'term', through=None), depth + 1)
+                    elif r.kind == 'un' and depth < 4:
+                        walk(provenance(b, r.extra['a'], r.site[0], r.site[1], through=None), depth + 1)
+                    elif r.kind == 'call':
+                        src.add(short(r.call.name))
+                        nonlocal late
+                        late &= b.dominates(cons[0].bb, r.call.bb) and any(q.kind == 'call' and q.call.bb == cons[0].bb for q in provenance(b, r.call.args[0], r.call.bb, 'term')) if r.call.args else False
+                    elif r.kind == 'const':
+                        src.add('const:%s' % r.what)
+                    else:
+                        src.add('%s:%s' % (r.kind, r.what)); late = False
+            walk(sw_.roots)
+    ctx.ob('A.ambiguity', 'run_inner:completion-known-after-tokenizing', bool(rd) and late and all(x.endswith('State::comp_ref') or x == 'const:True' for x in src),
+           'the ambiguity error is let through depending on %s, read from the state the tokenizer returned: %s' % (sorted(src), late), where=b.where(), cfg=cfg)
     good = bool(early) and bool(cons)
     for (i, k, st) in early:
         # must be Err(render(msg)) with msg from the tokenizer's err out-parameter
